@@ -125,10 +125,11 @@ impl EventGen for LoopElement {
     }
 }
 
-/// The loop variable as other computed numbers are written: at most three decimals,
-/// so that 0.1 + 2 * 0.1 is "0.3" rather than "0.30000000000000004".
+/// The loop variable without the noise of binary fractions - 0.1 + 2 * 0.1 is "0.3"
+/// rather than "0.30000000000000004" - but with the digits it has: a step of 0.0625
+/// counts 0.0625, 0.125... as written out by hand.
 fn loop_var_str(value: f64) -> String {
-    let s = format!("{value:.3}");
+    let s = format!("{value:.9}");
     let s = s.trim_end_matches('0').trim_end_matches('.');
     match s {
         "-0" | "" => "0".to_owned(),
